@@ -1,5 +1,11 @@
-/* Native replay for the serialize part of C30: MPI_Pack of `count` copies of hindexed / hvector / struct types over
- * byte-sized cells, under smpirun; prints which source bytes arrive and exits 1 on a mismatch with MPI-3.1 4.1. */
+/* Native reproduction for the serialize part of C30 (kept under /verif; used by replay.py for "serialize" obligations).
+ * Build and run:   /repo/_build/smpi_script/bin/smpicc native_pack.c -o native_pack
+ *                  echo Tremblay > hf
+ *                  /repo/_build/smpi_script/bin/smpirun -np 1 -platform /repo/examples/platforms/small_platform.xml -hostfile hf ./native_pack
+ * MPI_Pack of `count` = 2 copies of hindexed / hvector / struct types over byte-sized cells: prints which source bytes
+ * arrive, and exits 1 on a mismatch with MPI-3.1 4.1 (copy j starts j * extent after copy 0).
+ * Before the repairs e030d1a091 / 00b7ddbf3a / cc827e1571: hindexed{1,1;1,3} 1 3 4 7 (MPI 1 3 4 6), hindexed{1,1;4,0}
+ * 4 0 1 1 (MPI 4 0 9 5), hvector(2,1,3) over resized(BYTE,0,2) 0 3 4 7 (MPI 0 3 5 8), struct like hindexed. */
 #include <mpi.h>
 #include <stdio.h>
 #include <string.h>
